@@ -20,6 +20,7 @@ type genCfg struct {
 	nuniq   int
 	// relative weights
 	wRead, wWrite, wMulti, wJSON, wExpire int
+	wBad                                  int // percentage of deliberately invalid commands
 	noFlush                               bool
 	bigValues                             bool
 }
@@ -331,7 +332,48 @@ func (g *genCfg) expireCmd(r *rand.Rand) Cmd {
 	return Cmd{Args: []string{"EXPIRE", key, id, pick(r, g.exVals)}}
 }
 
+// badCmd generates a command that must be answered with an error and change nothing.
+func (g *genCfg) badCmd(r *rand.Rand) Cmd {
+	key := pick(r, g.keys)
+	id := g.anyID(r)
+	var a []string
+	switch r.Intn(14) {
+	case 0:
+		a = []string{"SET", key, id, "POINT", "abc", "10"}
+	case 1:
+		a = []string{"SET", key, id, "NX", "XX", "POINT", "1", "2"}
+	case 2:
+		a = []string{"SET", key, id, "FIELD", "z", "5", "POINT", "1", "2"}
+	case 3:
+		a = []string{"SET", key, id, "EX", "soon", "POINT", "1", "2"}
+	case 4:
+		a = []string{"SET", key, id, "OBJECT", `{"type":"Point","coordinates":[1`}
+	case 5:
+		a = []string{"SET", key, id, "BOUNDS", "1", "2", "3"}
+	case 6:
+		a = []string{"FSET", key, id, "lat", "5"}
+	case 7:
+		a = []string{"FSET", key, id, "f1"}
+	case 8:
+		a = []string{"EXPIRE", key, id, "never"}
+	case 9:
+		a = []string{"DEL", key, id, "BOGUS"}
+	case 10:
+		a = []string{"RENAME", key}
+	case 11:
+		a = []string{"PDEL", key}
+	case 12:
+		a = []string{"SET", key, id}
+	default:
+		a = []string{"GET", key, id, "HASH", "99"}
+	}
+	return Cmd{Args: a, Tag: "bad"}
+}
+
 func (g *genCfg) cmd(r *rand.Rand) Cmd {
+	if g.wBad > 0 && r.Intn(100) < g.wBad {
+		return g.badCmd(r)
+	}
 	total := g.wRead + g.wWrite + g.wMulti + g.wJSON + g.wExpire
 	x := r.Intn(total)
 	switch {
